@@ -75,6 +75,9 @@ def check_retry(rep, rule, fn, blk, idx, call, site, need_remaining=False):
     return ok
 
 
+_BEFORE = {}
+
+
 def facts_before(fn, blk, idx):
     """The guard facts that hold on *every* path from the function's entry to statement idx of blk (the meet of the states reaching it).
     A scenario that must show that something does not happen (no retry) starts from them: `again = FALSE; r = call ();` is only
@@ -182,7 +185,16 @@ def run_scenario(fn, blk, idx, call, failval, errno_val, extra_facts=(), watch=(
 
     # seed: process the statement that contains the call, then continue from there
     stmt = blk.stmts[idx]
-    f0 = transfer(guards.EMPTY, stmt)
+    # what every path to the call has established about plain flags (`received = FALSE; do { r = call (); ... } while (!received)`):
+    # without it the loop test is open and the scenario "leaves" a loop that the flag keeps it in
+    ck = (id(fn), blk.id, idx)
+    if ck not in _BEFORE:
+        _BEFORE[ck] = (fn, [f for f in facts_before(fn, blk, idx) if f[0] not in stable and not any(f[0] == k for (k, op, v) in extra_facts)])
+    f0 = guards.EMPTY
+    for (k, op, v) in _BEFORE[ck][1]:
+        f1 = guards.add_fact(f0, k, op, v)
+        f0 = f1 if f1 is not None else f0
+    f0 = transfer(f0, stmt)
     f0 = scenario_facts(f0, call, failval, errno_val)
     for (k, op, v) in extra_facts:
         f0 = guards.add_fact(f0, k, op, v) if f0 is not None else None
